@@ -98,6 +98,37 @@ Example C32_observation_lookalike :
   Match (b "*/1Min/OHLCV") (b "AAPL/5Min/OHLCV/2020.bin") = Some false.
 Proof. vm_compute. repeat split. Qed.
 
+(** * Synchronous mode with a trigger that writes: refuted
+    [Finding trigger-writes-during-fire]  With background sync disabled a flush runs in the caller's goroutine, and a
+    trigger whose Fire writes (contrib/ondiskagg does) flushes from its fire goroutine on the same dispatcher.
+    DispatchRecords sends tpd.m's entries and only afterwards resets tpd.m, unsynchronised: a nested flush in between
+    finds the writer's records still in the map and dispatches them a second time.  Full statement: in every
+    execution of the synchronous-mode LTS nothing is delivered more often than it was passed to AppendRecord. *)
+Definition C32_sync_full : Prop := forall trigs react callers s,
+  ssteps trigs react (sinit callers) s ->
+  forall t k r,
+    count_occ event_eq_dec (events (y_fired s)) (t, k, r) <= count_occ kr_eq_dec (map ckr (y_appended s)) (k, r).
+
+Definition sy_trigs : list (list tok) := Eval vm_compute in
+  match parse_on (b "*/1Min/BASE") with Some p => [p] | None => [] end.
+Definition sy_base := Eval vm_compute in mkcmd (b "S0/1Min/BASE/2020.bin") (7%Z, [x01]).
+Definition sy_agg := Eval vm_compute in mkcmd (b "AGG/1H/AGG/2020.bin") (1%Z, [x02]).
+(** the trigger aggregates: whenever it is fired it writes one record to the aggregate bucket *)
+Definition sy_react (t : nat) (wr : wrecs) : list cmd := match t with O => [sy_agg] | _ => [] end.
+(** caller: append, send;  dispatcher: fires the trigger, whose fire goroutine flushes: append, send, reset
+    -- BEFORE the caller's reset;  dispatcher: the base record again *)
+Definition sy_schedule : list slabel :=
+  [LThread 0; LThread 0; LDispatch; LThread 1; LThread 1; LThread 1; LDispatch].
+
+Theorem C32_sync_refuted : ~ C32_sync_full.
+Proof.
+  intros H.
+  destruct (sexec_all sy_trigs sy_react sy_schedule (sinit [[sy_base]])) as [s|] eqn:E; [|vm_compute in E; discriminate E].
+  pose proof (H sy_trigs sy_react [[sy_base]] s (sexec_all_sound _ _ _ _ _ E) 0 (c_key sy_base) (c_rec sy_base)) as Hle.
+  vm_compute in E. injection E as <-. vm_compute in Hle. exact (proj1 (PeanoNat.Nat.lt_nge 1 2) (le_n 2) Hle).
+Qed.
+Print Assumptions C32_sync_refuted.
+
 (** Non-vacuity: a concrete two-flush history with three triggers meets the hypotheses of
     C32_exactly_once and delivers a non-empty multiset; a concrete interleaving of two writers reaches a
     quiescent state. *)
